@@ -28,17 +28,20 @@ CONFIG = {
             "action list, S3 attest-once along every real single run (disk run + continuation). Non-trivial = at least one crash and one released vote.",
     "exhaustive": {"quick": False, "thorough": False},
     "explanation": "C02_crash_nonequiv / C02_fine_crash_nonequiv: every machine, every interleaving of events, writes, failed writes, checkpoint "
-                   "deliveries and crashes (unbounded); premise attest-once of single runs. C02_attest_once_soft_next: the agreement model, every "
-                   "event sequence (soft and next_k steps, by the step/napping discipline); cert/late/redo/down: see the _partial theorem and the "
-                   "Examples. crash points are enumerated per request, scripts are sampled",
+                   "deliveries and crashes (unbounded); premise attest-once of single runs. C02_attest_once: the agreement model, every event "
+                   "sequence, ALL step kinds (soft/next_k by the step/napping discipline; cert/late by the bind-to-threshold invariant of "
+                   "Staging over the router tree; redo by the same invariant for voteTrackerPeriod.Cached; down = bottom) under the trace "
+                   "premises and threshold value-consistency (cons_sc, cons_next); C02_model_nonequiv composes both halves. Crash points are "
+                   "enumerated per request, scripts are sampled",
     "assumptions": ["mainLoop and demuxLoop are serialized by the unbuffered output/ready/input channels (the model has four atomic operations; "
                     "a data race between the two goroutines is outside the model)",
                     "SQLite makes the single-row insert-or-replace of the crash DB atomic (a crash never leaves a torn row)",
                     "decode(encode(state)) is equivalent to state for an equivalence that the state machine respects and that preserves attest "
                     "actions (premises eqv_* of C02_fine_crash_nonequiv; for the agreement model this is C07, restore = identity on the observables; "
                     "the harness checks the model's persist projection against the real decoded row after every write)",
-                    "attest-once for cert / late / redo steps needs value-consistent thresholds per period (discharged from the quorum-intersection "
-                    "hypothesis in C01); an Example shows redo differs without it",
+                    "attest-once for cert / late / redo needs value-consistent thresholds per (round, period) (cons_sc / cons_next, premises of "
+                    "C02_attest_once; the quorum-intersection facts of C01); C02_attest_once_redo_needs_consistency shows redo differs without it; "
+                    "deadline timeouts arrive at steps < 252 (step++ never reaches late/redo/down), first round > 0, no uint64 wrap-around",
                     "pseudonodeVotesTask.execute (wait on persistStateDone before writing the votes to the output channel) is mirrored by the "
                     "harness's fake pseudonode, not executed: real vote making needs participation keys / VRF / one-time signatures",
                     "proposal-votes (step 0: assemble / repropose) are not persisted before release; outside the property's quantifier "
